@@ -45,8 +45,10 @@ inductive Call
 
 namespace Reader
 
-/-- reader.rs:52 `from_slice` (the `Read` is the slice itself and is never read) -/
-def fromSlice (data : Bytes) : Reader := { src := Src.new data [], buf := Buf.fromSlice data }
+/-- reader.rs:52 `from_slice`: the whole input is the window.  (The Rust also stores the slice
+as the `Read`, but `fill_buf` never reads from it in slice mode, so the model's source is
+empty: nothing is left to deliver.) -/
+def fromSlice (data : Bytes) : Reader := { src := Src.new [] [], buf := Buf.fromSlice data }
 
 /-- `TokenReader::builder().buffer(b).build(reader)` -/
 def build (buffer : Bytes) (src : Src) : Reader := { src := src, buf := Buf.build buffer }
